@@ -123,7 +123,7 @@ theorem cases_fresh (sibs : List DNode) (cases : List STree) (hnew : ∀ n ∈ s
 
 The families below are composed over the whole tree into `validate_ok_iff_valid` (end of this file) for plain schemas.
 -- OPEN: `validate_ok_iff_valid` for schemas with `choice` / `case`, `default`, `unique` and non-presence containers (implicit
--- data interleaves with the checks; the F60 / F65 / F66 variants of the code violate it there).  For that class the iff is
+-- data interleaves with the checks; the F175 / F180 / F188 variants of the code violate it there).  For that class the iff is
 -- evaluated on the implementation (law `iff` of tools/checks/c02.py, both directions, every run) and the model is compared with
 -- the specification by the `spec` operation; what is proved is the family-level equivalences of this table.
 -- OPEN: `validate_error_tag` beyond plain schemas, and `verdict_order_independent` (the verdict is invariant under reordering
@@ -134,7 +134,7 @@ The families below are composed over the whole tree into `validate_ok_iff_valid`
 | duplicates (`Dup`)               | `dup_family`, `dup_hash_eq_scan`          | §7.5, §7.6, §7.7, §7.8.2 |
 | one case per choice (`DupCase`)  | `cases_fresh`, `cases_correct`            | §7.9 |
 | min / max-elements               | `minmax_family`, `minmax_correct`         | §7.7.5, §7.7.6, §7.8.5 |
-| unique                           | `unique_hash_eq_pairwise`                 | §7.8.3 (tuple semantics: finding F60) |
+| unique                           | `unique_hash_eq_pairwise`                 | §7.8.3 (tuple semantics: finding F175) |
 | state data under no-state        | `state_family`                            | — |
 | mandatory leaf / choice          | by definition of `schemaNodes` / `schemaChoice` (`hasInst`) | §7.6.5, §7.9.4 |
 -/
